@@ -23,6 +23,7 @@ func init() {
 		} else {
 			x.StrList("clientSendCalls", x.Calls(fd))
 		}
+		x.skeleton("clientSend", mtcp, "MTCPClient", "Send")
 		x.skeleton("handleSender", mtcp, "MTCPServer", "handleSender")
 		return nil
 	})
